@@ -765,6 +765,21 @@ def _rejects(stmts):
     return False
 
 
+def _block_exits(stmts):
+    return bool(stmts) and isinstance(stmts[-1], (ast.Continue, ast.Break, ast.Return, ast.Raise))
+
+
+def _following(stmt):
+    """the statements after `stmt` in its block."""
+    par = getattr(stmt, '_parent', None)
+    for fld in ('body', 'orelse', 'finalbody'):
+        blk = getattr(par, fld, None)
+        if isinstance(blk, list) and any(x is stmt for x in blk):
+            i = [k for k, x in enumerate(blk) if x is stmt][0]
+            return blk[i + 1:]
+    return []
+
+
 class CharClass:
     """the set of characters a prepare_* / scan_* function lets through, as a predicate evaluated on the function's own
     condition (whatever its spelling or the name of its character variable).  The condition is the first test *in program
@@ -792,19 +807,53 @@ class CharClass:
         if self.node is None:
             raise AnalysisError('%s: no condition on the current character found' % f.qualname)
         n = self.node
+        body, orelse = n.body, n.orelse
+        if isinstance(n, ast.If) and not orelse and _block_exits(body):
+            # `if c: ...; continue` followed by the other case: what follows in the block is the else branch
+            orelse = _following(n)
         if isinstance(n, ast.While):
             self.pass_when = True
-        elif _rejects(n.body) and not _rejects(n.orelse):
+        elif _rejects(body) and not _rejects(orelse):
             self.pass_when = False
-        elif _rejects(n.orelse) and not _rejects(n.body):
+        elif _rejects(orelse) and not _rejects(body):
             self.pass_when = True
         else:
             raise AnalysisError('%s: cannot tell which branch of the character test passes the character through' % f.qualname)
         self.text = norm(self.test)
+        # locals in the test (other than the character) whose every reaching definition is a string literal: the test is
+        # evaluated for each of their values
+        self.alts = {}
+        at = cfg.entry_of(n)
+        if at is not None:
+            for x in ast.walk(self.test):
+                if isinstance(x, ast.Name) and x.id != self.var and x.id not in self.alts:
+                    defs = flow.IN.get(at, {}).get(x.id)
+                    if not defs or Flow.ENTRY in defs:
+                        continue
+                    vals = []
+                    for d in defs:
+                        a = d.ast
+                        if isinstance(a, ast.Assign) and len(a.targets) == 1 and isinstance(a.targets[0], ast.Name) \
+                                and isinstance(a.value, ast.Constant) and isinstance(a.value.value, str):
+                            vals.append(a.value.value)
+                        else:
+                            vals = None
+                            break
+                    if vals:
+                        self.alts[x.id] = sorted(set(vals))
 
     def passes(self, c):
         """True / False / None (depends on something else than the character)."""
-        v = CW.eval_cond(self.repo, self.test, {self.var: c})
+        import itertools
+        names = sorted(self.alts)
+        seen = set()
+        for combo in itertools.product(*[self.alts[k] for k in names]):
+            env = {self.var: c}
+            env.update(dict(zip(names, combo)))
+            seen.add(CW.eval_cond(self.repo, self.test, env))
+        if len(seen) != 1:
+            return None
+        v = seen.pop()
         if v is None:
             return None
         return v if self.pass_when else (not v)
